@@ -1264,7 +1264,9 @@ impl<SE: extensions::ShellExtensions> ExecuteInPipeline<SE> for ast::SimpleComma
                 CommandPrefixOrSuffixItem::IoRedirect(redirect) => {
                     if let Err(e) = setup_redirect(&mut context.shell, &mut params, redirect).await
                     {
-                        writeln!(params.stderr(&context.shell), "error: {e}")?;
+                        // The command fails whether or not the message can be delivered
+                        // (standard error may itself be closed or not writable by now).
+                        let _ = writeln!(params.stderr(&context.shell), "error: {e}");
                         return Ok(ExecutionResult::general_error().into());
                     }
                 }
